@@ -209,7 +209,7 @@ func solveAll(results []*OblResult, timeoutS int, workers int, order []int) {
 					}
 					if r.Res.Status != "unsat" && r.Res.Status != "sat" {
 						r.Ex.buildMu.Lock()
-						if cj := r.Ex.goalConjuncts(r.Obl.Goal); len(cj) > 1 && len(cj) <= 40 {
+						if cj := r.Ex.goalConjuncts(r.Obl.Goal); len(cj) > 1 && len(cj) <= 80 {
 							for _, g := range cj {
 								o2 := *r.Obl
 								o2.Goal = g
@@ -366,7 +366,7 @@ func solveStaged(r *OblResult, timeoutS int, order []int) *SolveResult {
 		local := r.Ex.buildQuery(r.Obl, nil)
 		var conj []string
 		var conjCoi [][]string
-		if cj := r.Ex.goalConjuncts(r.Obl.Goal); len(cj) > 1 && len(cj) <= 40 {
+		if cj := r.Ex.goalConjuncts(r.Obl.Goal); len(cj) > 1 && len(cj) <= 80 {
 			for _, g := range cj {
 				o2 := *r.Obl
 				o2.Goal = g
@@ -466,7 +466,7 @@ func solveStaged(r *OblResult, timeoutS int, order []int) *SolveResult {
 	// goal conjunct by conjunct (bit by bit for bit-vector equations), each a smaller search
 	r.Ex.buildMu.Lock()
 	var conj, conjLin []string
-	if cj := r.Ex.goalConjuncts(r.Obl.Goal); len(cj) > 1 && len(cj) <= 40 {
+	if cj := r.Ex.goalConjuncts(r.Obl.Goal); len(cj) > 1 && len(cj) <= 80 {
 		for _, g := range cj {
 			o2 := *r.Obl
 			o2.Goal = g
